@@ -53,6 +53,20 @@ Theorem C15_secrecy_occurrence :
 Proof. intros pre scheme user pwd host rest u v Hp Hc H. rewrite <- H. symmetry. exact (hide_mask_uri _ _ _ _ _ _ Hp Hc). Qed.
 Print Assumptions C15_secrecy_occurrence.
 
+(* Lists (the comma/blank separated "uri, uri, uri" strings of sources/outputs before normalisation, or any
+   text): a credential URI that starts the text or follows a whitespace character is hidden WHATEVER precedes it
+   - other URIs with or without credentials, unfinished matches, anything: the output does not depend on its
+   user and password.  (What is not claimed here, and is false: that the earlier credential-free URIs stay
+   readable - the match that starts at an earlier "scheme://" may run up to this URI's '@'; and a list
+   written without blanks "uri1,uri2" is not covered: after a path-less uri1 the second one is not recognised.) *)
+Theorem C15_list_secrecy :
+  forall pre scheme user pwd user' pwd' host rest,
+    ends_blank pre -> cred_ok scheme user pwd host rest -> cred_ok scheme user' pwd' host rest ->
+    hide_uri_users_and_pwds (pre ++ scheme ++ s_sep ++ user ++ [58] ++ pwd ++ [64] ++ host ++ rest) =
+    hide_uri_users_and_pwds (pre ++ scheme ++ s_sep ++ user' ++ [58] ++ pwd' ++ [64] ++ host ++ rest).
+Proof. exact hide_after_blank. Qed.
+Print Assumptions C15_list_secrecy.
+
 (* The configuration walk behind the "Name(config=...)" log line is total: for every tree - any depth,
    lists, tuples, dicts of any class (FilterConfig, per-source adict records, plain dicts) - every str
    of the logged value (dict keys included) is [hide] of a str of the configuration. *)
@@ -112,9 +126,14 @@ Theorem C15_nonvacuous :
   hide_uri_users_and_pwds (i_pre ++ i_scheme ++ s_sep ++ i_user ++ [58] ++ i_pwd ++ [64] ++ i_host ++ i_rest)
     = i_pre ++ i_scheme ++ s_sep ++ mask ++ [64] ++ i_host ++ i_rest /\
   strings (logged_config w_tree) = [s_id; [118]; s_sources; s_source;
-    [114;116;115;112;58;47;47;42;42;42;42;64;99;97;109;47;120]].
+    [114;116;115;112;58;47;47;42;42;42;42;64;99;97;109;47;120]] /\
+  (* "rtsp://u1:p1@h1/a, http://example.com/b, " in front: both credentials gone (the middle URI is swallowed) *)
+  ends_blank l_pre /\
+  hide_uri_users_and_pwds (l_pre ++ i_scheme ++ s_sep ++ i_user ++ [58] ++ i_pwd ++ [64] ++ i_host ++ i_rest)
+    = [114;116;115;112;58;47;47;42;42;42;42;64;104;49;47;97;44;32;104;116;116;112;58;47;47;42;42;42;42;64]
+      ++ i_host ++ i_rest.
 Proof.
   split; [exact (proj1 instance_ok)|]. split; [exact (proj2 instance_ok)|].
-  split; [exact instance_value|exact instance_walk].
+  split; [exact instance_value|]. split; [exact instance_walk|exact instance_list].
 Qed.
 Print Assumptions C15_nonvacuous.
